@@ -21,7 +21,7 @@ func runC17(c *Ctx) {
 	rulePatternOneInterpreter(c)
 	c.assume("package regexp implements RE2 semantics; QuoteMeta output matches its argument literally")
 	// a pattern refused for its size never reaches the matcher at all
-	ruleValueRejections(c, "R17.f")
+	ruleValueRejections(c, "R17.f", "KEYS", "SCAN")
 }
 
 // cleanPattern: v is built only from constants and QuoteMeta results.
